@@ -70,6 +70,14 @@ func genC18(r *Rng, tier string) *Plan {
 	if r.Chance(1, 40) {
 		n = 0 // nothing but non-config files (and maybe a profile): nothing to do, and nothing to refuse
 	}
+	kinds := []string{"forest"}
+	if n > 0 {
+		kinds = []string{"forest", "forest", "forest", "case-variant-aliases", "dangling-by-case", "dangling-by-blank", "dangling", "self-loop", "cycle", "tail-into-cycle", "collision-file-file", "collision-suffix", "collision-explicit-file", "collision-explicit-explicit"}
+	}
+	kind := Pick(r, kinds)
+	// an *explicit* alias has to match the schema's pattern (none of § $ % & ? * | < >); a file name
+	// need not. Worlds that copy a file-derived alias into an explicit one keep to plain names.
+	plainNames := strings.HasPrefix(kind, "collision-explicit")
 	ents := make([]*EntitySpec, n)
 	for i := range ents {
 		e := &EntitySpec{ID: fmt.Sprintf("e%d", i), Name: fmt.Sprintf("e%d", i), Dir: Pick(r, c18Dirs), Ext: Pick(r, c18Exts), Subject: []RDN{{"CN", fmt.Sprintf("Entity %d", i)}}}
@@ -82,8 +90,11 @@ func genC18(r *Rng, tier string) *Plan {
 		if r.Chance(1, 6) {
 			e.Name = fmt.Sprintf("e%d.prod", i)
 		} else if r.Chance(1, 8) {
-			e.Name = Pick(r, []string{"my root %d", "zürich-ca-%d", "日本%d", "ca+%d", "x=%d", "(%d)", "İ%d", "\u212a%d", "Å%d"})
+			e.Name = Pick(r, []string{"my root %d", "zürich-ca-%d", "日本%d", "ca+%d", "x=%d", "(%d)", "İ%d", "\u212a%d", "Å%d", "R&D %d", "who?%d", "a$%d", "50%%-%d", "p|q%d", "<%d>", "*%d", "§%d"})
 			e.Name = fmt.Sprintf(e.Name, i)
+			if plainNames && strings.ContainsAny(e.Name, "§$%&?*|<>") {
+				e.Name = fmt.Sprintf("e%d", i)
+			}
 		}
 		if i > 0 && r.Chance(3, 4) {
 			e.Issuer = ents[r.Intn(i)].EffAlias()
@@ -104,11 +115,6 @@ func genC18(r *Rng, tier string) *Plan {
 		}
 		ents[i] = e
 	}
-	kinds := []string{"forest"}
-	if n > 0 {
-		kinds = []string{"forest", "forest", "forest", "case-variant-aliases", "dangling-by-case", "dangling-by-blank", "dangling", "self-loop", "cycle", "tail-into-cycle", "collision-file-file", "collision-suffix", "collision-explicit-file", "collision-explicit-explicit"}
-	}
-	kind := Pick(r, kinds)
 	late := r.Chance(1, 2) // introduce the breakage after a good run
 	breakIt := func(es []*EntitySpec) []*EntitySpec {
 		// returns the specs that change (new or modified); es is the current sound set
